@@ -47,6 +47,10 @@ impl Lat {
             7 => { let h = 1.0f32 / 1048576.0; for &y in &[2.5 - h, 2.5 + h, 2.5 - h / 2.0, 2.5 + 1.5 * h, 3.5 - h, 3.5 + 2.0 * h] { for &x in &[0.0f32, 1.5, 3.0, 4.5] { v.push((x, y)); } } },
             // large triangles with off-lattice (non-dyadic) vertices: edges stepped over hundreds of rows
             8 => { let (xs, ys): (Vec<f32>, Vec<f32>) = if self.n == 0 { (vec![10.25, 120.5, 250.0, 300.0], vec![10.25, 60.0, 300.0]) } else { (vec![10.25, 120.5, 250.0, 300.0, 77.7, 199.9], vec![10.25, 60.0, 300.0, 155.3, 289.6]) }; for &y in &ys { for &x in &xs { v.push((x, y)); } } },
+            // slivers 0.003 px wide around the pixel-centre column x = 4000.5 (relative width < 1e-6)
+            9 => { let u = 1.0f32 / 4096.0; let c = 4000.5f32; for &y in &[0.0f32, 3.0, 7.5, 2.25] { for &x in &[c - 6.0 * u, c + 6.0 * u, c - 7.0 * u, c + 8.0 * u] { v.push((x, y)); } } },
+            // tall, narrow off-lattice triangles far from the origin: up to 1400 rows at x = 1030 .. 1671
+            10 => { v.extend_from_slice(&[(1030.3, 0.2), (1351.685, 700.4), (1671.07, 1400.6), (1040.3, 0.2), (1360.0, 700.4), (1100.0, 1400.6)]); },
             _ => unreachable!(),
         }
         v
@@ -56,8 +60,11 @@ const OFFS: [f32; 5] = [0.0, 1.0 / 3.0, 0.1, 0.0009765625, 0.499];
 
 struct Sl { y: usize, x0: usize, x1: usize, nfrag: usize }
 
-fn fill_cover(t: [(f32, f32); 3]) -> Result<Vec<Sl>, String> {
-    let vs = t.map(|(x, y)| vertex(pt3(x, y, 1.0), ()));
+fn fill_cover(t: [(f32, f32); 3]) -> Result<Vec<Sl>, String> { fill_cover_z(t, 0) }
+
+/// zmode 0: z = 1 at every vertex; 1: z = 0 at every vertex; 2: z = x - 2.5 (zero on a column of pixel centres)
+fn fill_cover_z(t: [(f32, f32); 3], zmode: u8) -> Result<Vec<Sl>, String> {
+    let vs = t.map(|(x, y)| vertex(pt3(x, y, match zmode { 0 => 1.0, 1 => 0.0, _ => x - 2.5 }), ()));
     let mut out = vec![];
     // (a span wider than 2^16 pixels is far outside every triangle enumerated here: recorded without walking it)
     caught(|| tri_fill(vs, |mut sl| { let wild = sl.xs.end.saturating_sub(sl.xs.start) > 1 << 16; let n = if wild { sl.xs.end - sl.xs.start } else { let cap = sl.xs.end.saturating_sub(sl.xs.start) + 2; sl.fragments().take(cap).count() }; out.push(Sl { y: sl.y, x0: sl.xs.start, x1: sl.xs.end, nfrag: n }); }))?;
@@ -69,6 +76,16 @@ fn check_cover(t: [(f32, f32); 3], r: &mut Report, fam: &str) {
     let key = |cl: &str| format!("{cl}|{fam}|{:?}", t);
     let case = || obj! {"kind" => "cover", "fam" => fam, "t" => J::Arr(t.iter().flat_map(|p| [fbits(p.0), fbits(p.1)]).collect())};
     let sls = match fill_cover(t) { Ok(s) => s, Err(p) => { r.violation(key("fill-panic"), format!("tri_fill{t:?} panicked: {p}"), case()); return; } };
+    // coverage and the fragment count do not depend on the depth values, zero included
+    for zm in [1u8, 2] {
+        match fill_cover_z(t, zm) {
+            Err(p) => { r.violation(key("fill-panic"), format!("tri_fill{t:?} with z mode {zm} panicked: {p}"), case()); return; }
+            Ok(o) => {
+                if let Some(s) = o.iter().find(|s| s.x1.saturating_sub(s.x0) != s.nfrag) { r.violation(key("xs-vs-fragments"), format!("triangle {t:?} with {}: scanline y={}: xs={}..{} but {} fragments", if zm == 1 { "z = 0 at every vertex" } else { "z = x - 2.5" }, s.y, s.x0, s.x1, s.nfrag), case()); return; }
+                if o.len() != sls.len() || o.iter().zip(&sls).any(|(a, b)| (a.y, a.x0, a.x1) != (b.y, b.x0, b.x1)) { r.violation(key("cover-depends-on-z"), format!("triangle {t:?}: scanlines differ between z = 1 and z mode {zm}"), case()); return; }
+            }
+        }
+    }
     let ti = t.map(|(x, y)| (exact(x), exact(y)));
     let mut covered = std::collections::BTreeSet::new();
     let mut last_y: Option<usize> = None;
@@ -338,6 +355,8 @@ fn families(quick: bool) -> Vec<(String, Vec<(f32, f32)>, usize, bool)> {
     f.push((format!("half-px N=3 +1000/+700 offset 0.1"), Lat { kind: 4, n: 3 }.points(), 2, false));
     f.push(("flat slivers 2^-11 px high at y=700".into(), Lat { kind: 6, n: 0 }.points(), 0, false));
     f.push(("flat slivers 2^-20 px high at y=2.5".into(), Lat { kind: 7, n: 0 }.points(), 0, false));
+    f.push(("upright slivers 0.003 px wide at x=4000.5".into(), Lat { kind: 9, n: 0 }.points(), 0, false));
+    f.push(("tall large triangles at x=1030..1671 (up to 1400 rows)".into(), Lat { kind: 10, n: 0 }.points(), 0, false));
     f.push(("large off-lattice triangles (up to 300 px)".into(), Lat { kind: 8, n: if quick { 0 } else { 1 } }.points(), 0, false));
     f.push(("large triangles on {0,37.25,160.5,321}^2".into(), Lat { kind: 5, n: 0 }.points(), 0, false));
     f.push(("large triangles on {0,37.25,160.5,321}^2 offset 1/3".into(), Lat { kind: 5, n: 0 }.points(), 1, false));
@@ -390,7 +409,7 @@ fn main() {
             rep.merge(par_range(&cfg, n * n * n / stride, |j, r| {
                 let i = j * stride + (j % stride.max(1));
                 let t = tri_of(pts, i.min(n * n * n - 1), *off, *per);
-                if name.starts_with("large") {
+                if name.starts_with("large") || name.starts_with("tall") {
                     // hundreds of thousands of fragments per triangle: two depth assignments, two types
                     for zi in [5usize, 19] { check_interp::<f32>(t, zi, r, name); check_interp::<(f32, Vec2)>(t, zi, r, name); }
                     return;
@@ -411,8 +430,8 @@ fn main() {
     if !is_cover { rep.merge(par_range(&cfg, 21870 * 3, check_vertical_sliver)); rep.merge(par_range(&cfg, 8748 * 3, check_apex_sliver)); rep.merge(par_range(&cfg, 972 * 6, check_flat_sliver)); }
     if is_cover {
         rep.finish(&cfg, "exploration",
-            "every ordered vertex triple of: the half-pixel lattice 0..N px, the same lattice with all vertices (or each vertex independently) shifted by 1/3, 0.1, 2^-10, 0.499 px (non-dyadic slopes), a copy translated by +57 px, flat slivers 2^-11 px high at y = 700 and 2^-20 px high at y = 2.5 around pixel-centre rows, and (thorough) the quarter-pixel lattice. Oracle: exact i128 edge functions on the exactly representable f32 inputs; centres within 0.001 px of an edge are exempt. Per triangle: covered set == inside set off the band, scanlines strictly increasing in y, no pixel twice, |xs| == number of fragments. All six vertex orders are separate cases. non-trivial = >=1 strictly inside centre.",
-            &["screen coordinates in [0, 64] (negative pixel coordinates are outside tri_fill's usize domain)", "z = 1, attribute ()"]);
+            "every ordered vertex triple of: the half-pixel lattice 0..N px, the same lattice with all vertices (or each vertex independently) shifted by 1/3, 0.1, 2^-10, 0.499 px (non-dyadic slopes), a copy translated by +57 px, flat slivers 2^-11 px high at y = 700 and 2^-20 px high at y = 2.5 around pixel-centre rows, upright slivers 0.003 px wide around the pixel-centre column x = 4000.5, large triangles (up to 321 px) on and off the lattice, and (thorough) the quarter-pixel lattice. Every triangle is filled with z = 1 and again with z = 0 at every vertex and with z = x - 2.5: the scanlines and the fragment counts must not depend on the depths. Oracle: exact i128 edge functions on the exactly representable f32 inputs; centres within 0.001 px of an edge are exempt. Per triangle: covered set == inside set off the band, scanlines strictly increasing in y, no pixel twice, |xs| == number of fragments. All six vertex orders are separate cases. non-trivial = >=1 strictly inside centre.",
+            &["screen coordinates in [0, 64], [1000, 1005] x [700, 704], [0, 321], x in [4000, 4001] (negative pixel coordinates are outside tri_fill's usize domain)", "attribute (); depth values 1, 0, x - 2.5"]);
     } else {
         rep.finish(&cfg, "exploration",
             "triangles as for C04 (thinned in the quick tier) x all 27 reciprocal-depth assignments over {1, 0.5, 0.1} (w ratio up to 10:1), also with all three scaled by 2^-24 and 2^10 (f32 attribute; other types on a subset), x attribute types f32, (f32,Vec2) and, on a stated subset, Vec2, Vec3, Color3f, Color4f, Point2, Point3, Angle with distinct non-constant vertex values handed over pre-divided (a*z). Oracle: f64 barycentric planes through the vertex depths and values at the pixel centre; var = value plane / depth plane; tolerance 0.5% of the vertex range; every fragment finite for area > 1e-6 (triangles with minimum altitude < 0.05 px are judged for finiteness and position only); reported position within 1e-3 px of the pixel centre; plus slivers 2^-24 .. 2^-12 px wide with an exactly vertical edge through a column of pixel centres, whose fragments on that column must carry the values interpolated along the edge, and slivers whose span on a pixel-centre row is [c - w/2, c + w/2] exactly (w = 2^-22 .. 2^-10), whose fragment there must carry the mean of the two span ends; and flat slivers (height ~1e-6 of y, at rows 2.5, 100.5, 1000.5) whose middle vertex lies on a pixel-centre row, whose fragments blend linearly between that vertex and the midpoint of the long edge. non-trivial = triangle with >= 1 fragment fully judged.",
